@@ -287,7 +287,7 @@ impl Prop for C03 {
     }
     fn meta(&self, _tier: Tier) -> Meta {
         Meta {
-            rule: "variant 'exh': bounded-exhaustive layouts — 3 chunk identities with sizes from {1,2,3} (27 assignments) plus a junk identity (only in the prior output) and an archive-only identity (only in the target); prior and target are ALL sequences of <= N slots (N=3 quick, N=4 thorough) over 4 symbols; indexes are built through ChunkIndex::add_chunk from non-overlapping tilings, then the real planner/executor runs on an instrumented in-memory output and the remaining chunks are fed as from the archive. 'rand'/'shuf': random layouts of up to 60 slots over up to 12 identities. 'scen': real content — prior output = edit-script derivative of the source, scanned by bitar's own chunker, all small configs, hash lengths 8..64, prior shorter/equal/longer, plus seeds. Oracles: final bytes == target (resized), the public reorder plan interpreted by the independent cell interpreter R4 never reads a destroyed chunk, and no reusable chunk stays in the clone index. Non-trivial = at least one copy whose destination overlaps another chunk's location (exh/rand/shuf) or at least one chunk moved in place (scen); distinct by Blake2 of the canonical case.".into(),
+            rule: "variant 'exh': bounded-exhaustive layouts — 3 chunk identities with sizes from {1,2,3} (27 assignments) plus a junk identity (only in the prior output) and an archive-only identity (only in the target); prior and target are ALL sequences of <= N slots (N=4 quick, N=5 thorough) over 4 symbols; indexes are built through ChunkIndex::add_chunk from non-overlapping tilings, then the real planner/executor runs on an instrumented in-memory output and the remaining chunks are fed as from the archive. 'rand'/'shuf': random layouts of up to 60 slots over up to 12 identities. 'scen': real content — prior output = edit-script derivative of the source, scanned by bitar's own chunker, all small configs, hash lengths 8..64, prior shorter/equal/longer, plus seeds. Oracles: final bytes == target (resized), the public reorder plan interpreted by the independent cell interpreter R4 never reads a destroyed chunk, and no reusable chunk stays in the clone index. Non-trivial = at least one copy whose destination overlaps another chunk's location (exh/rand/shuf) or at least one chunk moved in place (scen); distinct by Blake2 of the canonical case.".into(),
             assumptions: vec!["indexes handed to the planner are non-overlapping tilings (the only shape a scan of the output can produce)".into()],
             ..Meta::default()
         }
